@@ -245,7 +245,7 @@ pub fn run_case<R: RecUni>(spec: &ShapeSpec, proof_tree: &Value, honest_common: 
             ),
             Ok(b) => {
                 let c = R::batch_run(&b, &p2, &common2).0;
-                let n = R::batch_native(s, &p2);
+                let n = R::batch_native(s, &p2, &common2);
                 if c.panicked() {
                     return ("run_panic".into(), Some((format!("panic_run:batch:{}:{class}", f.kind), format!("packing/running the built circuit panicked on {} at {}: {}", f.kind, tree::path_str(&f.path), c.msg().chars().take(200).collect::<String>()))));
                 }
